@@ -2,8 +2,8 @@ CFG = dict(
     prop="C06", level="proof", harness="c06",
     props_files=["theories/Props/C06.v"], corr_file="theories/Corr/C06.v", corr_module="Corr.C06",
     extra_targets=["theories/FixTree/Examples.vo"],
-    groups={"batch": False, "run": False},
-    show_fn={"batch": "show_batch", "run": "show_run"},
+    groups={"batch": False, "run": False, "synth": False},
+    show_fn={"batch": "show_batch", "run": "show_run", "synth": "show_batch"},
     shard=40,
     design_ref="DESIGN.md 6.6",
     technique="Coq proof (refinement of apply_fixes to a lookup-based rewriting specification of the tree and of the leaf list; "
